@@ -1236,3 +1236,38 @@ Lemma gen_protocol_completes :
                                   (repeat 0%nat 8 ++ repeat 1%nat 8) in
                     pfinished (pc_a c) && pfinished (pc_b c)) (submasks proto_mask) = true.
 Proof. vm_compute. reflexivity. Qed.
+
+(* ==== the rest of c2, read from the source by atomics2v =================================== *)
+(* no method with a VALUE receiver writes the state word of its receiver (such a write lands in a
+   copy and is lost: every flag clear through that method would have no effect) *)
+Lemma gen_no_value_receiver_writers : gen_value_receiver_writers = 0.
+Proof. reflexivity. Qed.
+
+(* every statement list of c2 that drops the standing channel request (clears ChannelValue) also
+   clears its notice and the channel mode *)
+Definition site_ok (cs : Z * Z) : bool :=
+  if Z.land (fst cs) stateChannelValue =? 0 then true else Z.land (fst cs) teardown_mask =? teardown_mask.
+Lemma gen_sites_drop_notice_with_request : forallb site_ok gen_state_sites = true.
+Proof. vm_compute. reflexivity. Qed.
+
+(* Session.close has (at least) two such statement lists and each of them clears all three flags,
+   as st_close of Model/State.v does *)
+Lemma gen_close_sites_teardown :
+  (2 <=? Z.of_nat (length gen_session_close_sites)) &&
+  forallb (fun cs => Z.land (fst cs) teardown_mask =? teardown_mask) gen_session_close_sites = true.
+Proof. vm_compute. reflexivity. Qed.
+
+(* hence: wherever c2 drops the request, no notice outlives it -- a channel started later (by the
+   peer) is not stopped by a stale notice *)
+Theorem no_notice_outlives_its_request :
+  forall cs w, In cs gen_state_sites -> Z.land (fst cs) stateChannelValue <> 0 ->
+    let w1 := st_unset w (fst cs) in
+    st_channel_value w1 = false /\ st_channel_updated w1 = false /\
+    (forall s, Z.testbit s 10 = false -> let w2 := st_set (st_set w1 s) stateChannel in
+               st_closing w2 = false -> st_channel_can_stop w2 = (false, w2)).
+Proof.
+  intros cs w Hin Hv.
+  pose proof (proj1 (forallb_forall _ _) gen_sites_drop_notice_with_request cs Hin) as H.
+  unfold site_ok in H. destruct (Z.eqb_spec (Z.land (fst cs) stateChannelValue) 0) as [E|_]; [contradiction|].
+  apply Z.eqb_eq in H. destruct (no_stale_notice_after_teardown (fst cs) w H) as (_ & V & U & K). auto.
+Qed.
